@@ -1,3 +1,4 @@
+import DigModel.Proofs.DotTextProofs
 import DigModel.Dot
 /-
   C19 — Visualize is a faithful, well-formed picture of the container (structure level).
@@ -199,6 +200,59 @@ theorem C19_first_failure_is_root (g : DGraph) (r : DResult) :
   unfold DGraph.failNode
   cases g.rootCauses.isEmpty <;> simp
 
+
+/-! ### the text of node labels, for every string -/
+
+private theorem pfx_plain : ('<' ∉ "Name: ".toList ∧ '>' ∉ "Name: ".toList) := by decide
+private theorem gpfx_plain : ('<' ∉ "Group: ".toList ∧ '>' ∉ "Group: ".toList) := by decide
+
+open Dig.DotText in
+/-- **a result node's label is one well-formed HTML string, whatever the type, the name and the group are**: the
+    attribute text `(*Result).Attributes` composes is `label=<body>`, and the DOT lexer, started behind the opening `<`,
+    reads exactly `body` and stops at the closing `>` — no character of a type such as `<-chan int` or of a name such as
+    `a<b` can end the string early or keep it open (defect F18 was exactly that) -/
+theorem C19_result_label_is_one_html_string (t name group rest : List Char) :
+    ∃ body, resultAttr t name group = "label=<".toList ++ body ++ ">".toList ∧
+      scan 1 [] (body ++ '>' :: rest) = some (body, rest) := by
+  unfold resultAttr
+  by_cases hn : name ≠ []
+  · rw [if_pos hn]
+    exact ⟨_, rfl, scan_labelBody t _ (fun p hp => by cases hp; exact pfx_plain) rest⟩
+  · rw [if_neg hn]
+    by_cases hg : group ≠ []
+    · rw [if_pos hg]
+      exact ⟨_, rfl, scan_labelBody t _ (fun p hp => by cases hp; exact gpfx_plain) rest⟩
+    · rw [if_neg hg]
+      exact ⟨_, rfl, scan_labelBody t none (fun p hp => by cases hp) rest⟩
+
+open Dig.DotText in
+/-- the same for the diamond of a value group, with or without the colour of a failure -/
+theorem C19_group_label_is_one_html_string (t name : List Char) (err : Nat) (rest : List Char) :
+    ∃ body tail, groupAttr t name err = "shape=diamond label=<".toList ++ body ++ ">".toList ++ tail ∧
+      scan 1 [] (body ++ '>' :: rest) = some (body, rest) ∧
+      (tail = [] ∨ tail = " color=red".toList ∨ tail = " color=orange".toList) := by
+  unfold groupAttr
+  refine ⟨_, _, rfl, scan_labelBody t _ (fun p hp => by cases hp; exact gpfx_plain) rest, ?_⟩
+  match err with
+  | 0 => exact Or.inl rfl
+  | 1 => exact Or.inr (Or.inl rfl)
+  | _ + 2 => exact Or.inr (Or.inr rfl)
+
+open Dig.DotText in
+/-- **what a label displays is what was declared**: escaped text has no raw angle bracket, every ampersand in it starts a
+    character reference, and decoding the references gives back the type / name / group — for every string -/
+theorem C19_label_text_roundtrip (s : List Char) :
+    '<' ∉ esc s ∧ '>' ∉ esc s ∧ refsOK (esc s) = true ∧ unesc (esc s) = s :=
+  ⟨(esc_noAngle s).1, (esc_noAngle s).2, refsOK_esc s, unesc_esc s⟩
+
+/-- non-vacuity (tests): the label of a value named `a<b` of type `<-chan int` -/
+example : String.ofList (Dig.DotText.resultAttr "<-chan int".toList "a<b".toList []) =
+    "label=<&lt;-chan int<BR /><FONT POINT-SIZE=\"10\">Name: a&lt;b</FONT>>" := by decide
+example : Dig.DotText.scan 1 [] "<-chan int>".toList = none := by decide     -- the unescaped text never closes
+
+#print axioms C19_result_label_is_one_html_string
+#print axioms C19_group_label_is_one_html_string
+#print axioms C19_label_text_roundtrip
 #print axioms C19_can
 #print axioms addCtor_view
 #print axioms addNodesAux_view
